@@ -1,5 +1,6 @@
 import GambitV.Model.Kmers
 import Driver.Proto
+import Driver.PyGenCmp
 namespace Driver.C07
 open GambitV Driver
 
@@ -11,10 +12,14 @@ def showEnc : Except KmerErr Nat → String
 def handle : List String → Option String
   | ["c07.enc", h, real] => do
     let s ← parseHex h
-    pure (expect (showEnc (kmerToIndex s)) real)
+    let r := expect (showEnc (GambitV.kmerToIndex s)) real
+    if r != "ok" then pure r else
+    pure ((PyGen.kmerToIndex s real).getD "ok")
   | ["c07.encrc", h, real] => do
     let s ← parseHex h
-    pure (expect (showEnc (kmerToIndexRc s)) real)
+    let r := expect (showEnc (GambitV.kmerToIndexRc s)) real
+    if r != "ok" then pure r else
+    pure ((PyGen.kmerToIndexRc s real).getD "ok")
   | ["c07.dec", i, k, real] => do
     let i ← i.toNat?
     let k ← k.toNat?
@@ -24,7 +29,9 @@ def handle : List String → Option String
     pure (expect (hexOf (revcomp s)) real)
   | ["c07.dtype", k, real] => do
     let k ← k.toNat?
-    pure (expect (optNatOf (indexDtypeBytes k)) real)
+    let r := expect (optNatOf (indexDtypeBytes k)) real
+    if r != "ok" then pure r else
+    pure ((PyGen.indexDtype k real).getD "ok")
   | _ => none
 
 end Driver.C07
